@@ -61,6 +61,22 @@ theorem applyPostFilter_var (env : Env) (parent : Component) (fold : Fold) (f : 
   obtain ⟨a, vs, vals, s, fc, fv, it⟩ := c
   cases a <;> cases b <;> simp
 
+/-- `apply_fold_specific_filter` for `count <op> $var` on a context whose fold does not exist
+(the slot holds `None`; such a context has no active vertex): the placeholder `Null` is pushed and
+popped again, the operator is not evaluated, the context passes. -/
+theorem applyPostFilter_var_nonexistent (env : Env) (parent : Component) (fold : Fold) (f : IRFilter)
+    (c : Ctx) (o : Filter.BinOp) (name : Name) (ty : QTy) (v : Value)
+    (hop : f.op = .bin o) (hr : f.right = some (.var name ty)) (hrx : isRegexOp o = false)
+    (harg : env.arg name = .ok v) (hslot : c.foldCount? fold.eid = some none)
+    (hact : c.active = none) :
+    applyPostFilter env parent fold f c = .ok (some c) := by
+  simp only [applyPostFilter, hslot, applyFilter, hop, hr, harg, hrx, bind, R.bind, pure, filterMapR,
+    Ctx.pushValue, Ctx.popValue, R.ofOutcome]
+  obtain ⟨a, vs, vals, s, fc, fv, it⟩ := c
+  simp only at hact
+  subst hact
+  simp
+
 theorem filterMapR_singleton {α β : Type} (g : α → R (Option β)) (x : α) :
     filterMapR g [x] = (g x).map (fun o => o.toList) := by
   simp only [filterMapR]
@@ -107,7 +123,9 @@ theorem applyPostFilter_some {env : Env} {parent : Component} {fold : Fold} {f :
   · obtain ⟨l, hl, h⟩ := R.bind_eq_ok' h
     rcases applyFilter_singleton hl with rfl | rfl <;> simp at h
     exact h.symm
-  · simp at h
+  · obtain ⟨l, hl, h⟩ := R.bind_eq_ok' h
+    rcases applyFilter_singleton hl with rfl | rfl <;> simp at h
+    exact h.symm
   · simp at h
 
 /-! ### verdict of `count <op> $var` for integer-kinded arguments -/
@@ -405,6 +423,31 @@ theorem minFoldLimit_verdict (env : Env) (parent : Component) (fold : Fold) (fs 
       applyPostFilters env parent fold fs c =
         .ok (if c.active.isNone || decide (t ≤ n) then some c else none) :=
   minFilters_verdict env parent fold fs k (minFoldLimit_mem h).2
+
+/-- … and they let a context pass whose fold does not exist (slot `None`, no active vertex): a
+fold inside a missing `@optional` scope is not filtered by its count. -/
+theorem minFilters_pass_nonexistent (env : Env) (parent : Component) (fold : Fold)
+    (fs : List IRFilter) (k : Nat)
+    (h : ∀ f ∈ fs, ∃ kf, kf ≤ k ∧ minLimitOf env f = .ok (some kf))
+    (c : Ctx) (hslot : c.foldCount? fold.eid = some none) (hact : c.active = none) :
+    applyPostFilters env parent fold fs c = .ok (some c) := by
+  induction fs with
+  | nil => rfl
+  | cons f fs ih =>
+    obtain ⟨kf, _, hf⟩ := h f (by simp)
+    obtain ⟨name, ty, hr, v, x, harg, _, hcase⟩ := minLimitOf_inv hf
+    have h1 : applyPostFilter env parent fold f c = .ok (some c) := by
+      rcases hcase with ⟨hop, _⟩ | ⟨hop, _⟩
+      · exact applyPostFilter_var_nonexistent env parent fold f c _ name ty v hop hr rfl harg hslot hact
+      · exact applyPostFilter_var_nonexistent env parent fold f c _ name ty v hop hr rfl harg hslot hact
+    simp only [applyPostFilters, R.bind_eq_bind, h1, R.bind_ok]
+    exact ih (fun g hg => h g (by simp [hg]))
+
+theorem minFoldLimit_pass_nonexistent (env : Env) (parent : Component) (fold : Fold)
+    (fs : List IRFilter) (k : Nat) (h : minFoldLimit env fs none = .ok (some k))
+    (c : Ctx) (hslot : c.foldCount? fold.eid = some none) (hact : c.active = none) :
+    applyPostFilters env parent fold fs c = .ok (some c) :=
+  minFilters_pass_nonexistent env parent fold fs k (minFoldLimit_mem h).2 c hslot hact
 
 /-! ### evaluating the interpreter on concrete queries (for the witnesses)
 
